@@ -246,6 +246,27 @@ def run(tier, seed):
             if a_t != a_d:
                 chk.violation("options text with a repeated member name is read differently from the value json.loads gives for it", f"duplicate-member-name {'reg' if is_reg else 'auth'}",
                               {"entry": "parse_options_json", "text": t2[:600], "text_form": a_t[:300], "dict_form": a_d[:300]})
+    # numbers in every JSON spelling (incl. integers longer than the interpreter converts by default - json.loads raises a plain ValueError there):
+    # text that json.loads refuses is refused with the structure exception; a number in an ignored member changes nothing
+    NUMS = ["1" + "0" * 5000, "-" + "9" * 4301, "1E400", "-0", "1.0", "1E3", "NaN", "Infinity", "[[" + "7" * 6000 + "]]", "60000.0", "6e4"]
+    for is_reg in (True, False):
+        a = optsim.gen_reg_args(rng) if is_reg else optsim.gen_auth_args(rng)
+        o = webauthn.generate_registration_options(**optsim.reg_kwargs(dict(a, challenge=b"c" * 16))) if is_reg else webauthn.generate_authentication_options(**optsim.auth_kwargs(dict(a, challenge=b"c" * 16)))
+        t = options_to_json(o)
+        ref = parse_both(is_reg, t)
+        for num in NUMS:
+            for where, t2 in (("ignored member", t[:-1] + ', "zz_ignored": ' + num + "}"), ("timeout", "{" + '"timeout": 1, ' + t[1:-1] + ', "timeout": ' + num + "}"), ("the whole text", num)):
+                il = parse_both(is_reg, t2)
+                try:
+                    json.loads(t2)
+                    refused = False
+                except ValueError:
+                    refused = True
+                if refused and il != LIB_IJS:
+                    chk.violation(f"options text that json.loads refuses ({where}: a number written {num[:12]}...) is not refused with the structure exception: {il[:60]}", f"number-spelling {'reg' if is_reg else 'auth'} {where} {il[:40]}",
+                                  {"entry": "parse_options_json", "text": t2[:300], "text_length": len(t2), "impl": il[:200]})
+                if not refused and where == "ignored member" and il != ref:
+                    chk.violation(f"a number written {num[:16]} in an ignored member changed the parsed options", f"number-spelling-not-ignored {'reg' if is_reg else 'auth'}", {"text": t2[:300], "impl": il[:200], "reference": ref[:200]})
     # arbitrary mutations: model vs implementation only
     for i in range(300 if quick else 10000):
         is_reg = rng.random() < 0.6
